@@ -22,6 +22,8 @@ else:
     label = lambda p: os.path.basename(p)[:-6]
 if only:
     patches = [p for p in patches if any(o in label(p) for o in only.split(','))]
+import json
+UNDECIDED = json.load(open(os.path.join(V, 'controls', 'UNDECIDED.json'))) if os.path.exists(os.path.join(V, 'controls', 'UNDECIDED.json')) else {}
 PIDS = [f'C{i:02d}' for i in range(1, 21)]
 if '--pids' in args:       # --pids C03,C17  |  --pids own (the property the control was written for)
     PIDS = args[args.index('--pids') + 1].split(',')
@@ -41,6 +43,8 @@ def run(p):
         env = dict(os.environ, VERIF_EVIDENCE_DIR=os.path.join(d, 'ev'))
         for pid in ([label(p)[:3]] if PIDS == ['own'] else PIDS):
             c = subprocess.run([os.path.join(V, 'check'), pid, '--repo', root, '--tier', 'quick'], capture_output=True, text=True, env=env)
+            if c.returncode == 2 and pid in UNDECIDED.get(label(p), {}).get('checks', []) and 'VIOLATION' not in c.stdout:
+                continue        # documented: this check does not decide this control (controls/UNDECIDED.json)
             if c.returncode != 0:
                 lines = [l.strip() for l in c.stdout.splitlines() if 'violated: rule' in l or 'ANALYSIS-ERROR' in l or l.strip().startswith('reason:') or l.strip().startswith('obligation:')]
                 out[pid] = {'exit': c.returncode, 'lines': lines[:9]}
